@@ -14,7 +14,8 @@ from ..core.panics import TABLES
 CONFIGS = {'quick': ['A'], 'thorough': ['A', 'B', 'C', 'D']}
 LEVEL = 'other'
 TECHNIQUE = ('ordering / must-pass queries for the hash-cache discipline (mutation -> update_hashes -> tree_hash), who-may-mutate queries on '
-             'the node vector and hash cache, def-use wiring of the touched-leaf set, validator completeness, guard inventory')
+             'the node vector and hash cache, def-use wiring of the touched-leaf set, validator completeness, guard inventory, relation '
+             'check on every comparison with a bound of a subtree leaf range (half-open), loop exhaustiveness')
 EXPLANATION = ('HASH-CACHE: every tree-hash read that ends up in a group context is preceded, on every path, by update_hashes over the '
                'leaves touched since the last update: process_commit (sender), commit_internal (self index), batch_edit (removed, '
                'updated, added, self-removed leaves), update_parent_hashes (before and after the parent-hash rewrite), encap. Only '
